@@ -73,6 +73,11 @@ def Host(name, args, ty):
     return Node("host", ty, name=name, args=args)
 
 
+def HostM(name, recv, args, ty):
+    """method registered by the host on a primitive type: `recv.msub(arg)`; the host sees it as <name>_<type>(recv, args..)"""
+    return Node("host", ty, name=f"{name}_{recv.ty}", args=[recv] + args, method=name)
+
+
 def Ret(e):
     return Node("ret", "never", e=e)
 
@@ -203,6 +208,11 @@ def src(n, ind=1):
     if k == "call":
         return f"{n.fn}({', '.join(src(a, ind) for a in n.args)})"
     if k == "host":
+        if getattr(n, "method", None):
+            r = src(n.args[0], ind)
+            if n.args[0].kind not in ("var", "host", "call", "paren", "block", "field", "method"):
+                r = f"({r})"
+            return f"{r}.{n.method}({', '.join(src(a, ind) for a in n.args[1:])})"
         return f"{n.name}({', '.join(src(a, ind) for a in n.args)})"
     if k == "ret":
         if n.e is not None and n.e.kind in ("if", "block", "match", "while"):
@@ -710,6 +720,9 @@ class Ref:
         if name.startswith("pure_"):
             self.trace.append((name, args))
             return args[0]
+        if name.startswith("msub_"):
+            self.trace.append((name, args))
+            return args[0] - args[1]
         if name == "mk":
             self.trace.append((name, args))
             return {"val": args[0]}
